@@ -94,7 +94,8 @@ def simulate (pat : List Actor) : Nat → Nat → St → Op → Option Nat → (
       simulate pat fuel (t + 1) s' o' tl'
 
 def schedules : List (List Actor) :=
-  [[.rdr, .op], [.op, .rdr], [.rdr, .rdr, .rdr, .op], [.op, .op, .op, .rdr]]
+  [[.rdr, .op], [.op, .rdr], [.rdr, .rdr, .rdr, .op], [.op, .op, .op, .rdr],
+   [.rdr, .rdr, .rdr, .rdr, .rdr, .rdr, .rdr, .rdr, .op]]
 
 def addSet (l : List String) (x : String) : List String := if l.contains x then l else l ++ [x]
 
@@ -102,13 +103,16 @@ def cliCase (prog : List Phase) (stale : List Bytes) (kind : String) (k : Nat)
     (table : List (Nat × Option Nat × Bool)) (fuel : Nat) : String :=
   let total := prog.foldl (fun acc p => match p with | .write _ r => acc + r.flatten.length | _ => acc) 0
   let s0 : St :=
-    if kind == "werr" then
+    if kind == "both" then
+      { pending := [], left := k, kind := .eof, wleft := some k, q := stale, rd := .running, lost := false }
+    else if kind == "werr" then
       { pending := [], left := total + stale.flatten.length + 1, kind := .eof, wleft := some k, q := stale, rd := .running, lost := false }
     else
       { pending := [], left := k, kind := if kind == "eof" then .eof else .err, wleft := none, q := stale, rd := .running, lost := false }
   let o0 : Op := { prog := prog, rb := [], outs := [] }
   let dom :=
     if kind == "werr" then k < wneed prog
+    else if kind == "both" then k < wneed prog || doomedT (k + stale.flatten.length) table
     else doomedT (k + stale.flatten.length) table
   let rs := schedules.map fun pat => simulate pat fuel 0 s0 o0 none
   let outs := rs.foldl (fun acc (r, _, _) => addSet acc (match r with | some r => resName r | none => "run")) []
@@ -150,37 +154,45 @@ def parseWrite (f : String) : Option (Bytes × List Bytes) :=
     pure (b, react)
   | _ => none
 
-def nsimulate (msgP : Bytes → Bool) (idOf : Bytes → Nat) (pat : List NActor) :
+def nsimulate (msgP : Bytes → Bool) (idOf : Bytes → Nat) (echoRest : Bytes → Option Bytes) (pat : List NActor) :
     Nat → Nat → NSt → Rpc → Option Nat → (Option Res × Option Nat × Nat)
   | 0, t, _, _, tl => (none, tl, t)
   | fuel + 1, t, n, r, tl =>
-    match nrun msgP idOf pat n r with
+    match nrun msgP idOf echoRest pat n r with
     | (n', .inr res) =>
       let tl' := match tl with | some x => some x | none => if n'.ch.lost then some t else none
       (some res, tl', t)
     | (n', .inl r') =>
       let tl' := match tl with | some x => some x | none => if n'.ch.lost then some t else none
-      nsimulate msgP idOf pat fuel (t + 1) n' r' tl'
+      nsimulate msgP idOf echoRest pat fuel (t + 1) n' r' tl'
 
 def nschedules : List (List NActor) :=
-  [ntick 0, ntick 5, ntick 9, [.rdr, .rdr, .rdr, .fwd, .fwd, .rpc true], [.rpc false, .rpc false, .fwd, .rdr]]
+  [ntick 0, ntick 5, ntick 9, [.rdr, .rdr, .rdr, .fwd, .fwd, .rpc true], [.rpc false, .rpc false, .fwd, .rdr],
+   [.rdr, .rdr, .rdr, .rdr, .rdr, .rdr, .rdr, .rdr, .fwd, .rpc false]]
 
 def nofireB (msgP : Bytes → Bool) (n : NSt) (r : Rpc) : Bool :=
   (List.range (nbudget n + 1)).all fun j => !msgP ((nunread n r).take j)
 
-def ncCase (msgP : Bytes → Bool) (idOf : Bytes → Nat) (nb : Bytes) (mid : Nat)
+def ncCase (msgP : Bytes → Bool) (idOf : Bytes → Nat) (echoRest : Bytes → Option Bytes) (nb : Bytes) (mid : Nat)
     (ws : List (Bytes × List Bytes)) (kind : String) (k : Nat) (fuel : Nat) : String :=
   let total := ws.foldl (fun acc w => acc + w.2.flatten.length) 0
   let ch : St :=
-    if kind == "werr" then
+    if kind == "both" then
+      { pending := [], left := k, kind := .eof, wleft := some k, q := [], rd := .running, lost := false }
+    else if kind == "werr" then
       { pending := [], left := total + 1, kind := .eof, wleft := some k, q := [], rd := .running, lost := false }
     else
       { pending := [], left := k, kind := if kind == "eof" then .eof else .err, wleft := none, q := [], rd := .running, lost := false }
   let n0 : NSt := { ch := ch, nb := nb, fwd := none, store := [] }
   let r0 : Rpc := { writes := ws, mid := mid }
   let wtotal := ws.foldl (fun acc w => acc + w.1.length) 0
-  let dom := if kind == "werr" then k < wtotal else nofireB msgP n0 r0
-  let rs := nschedules.map fun pat => nsimulate msgP idOf pat fuel 0 n0 r0 none
+  -- in the domain: fed byte by byte (every prefix is tested), the deliverable part of the reply
+  -- stream never makes `Driver.read` store a message (an echoed request is discarded, not stored)
+  let deliverable := ((ws.map (·.2.flatten)).flatten.take k).map fun b => [b]
+  let dom := if kind == "werr" then k < wtotal
+    else if kind == "both" then k < wtotal || feedSafe msgP echoRest nb deliverable
+    else feedSafe msgP echoRest nb deliverable
+  let rs := nschedules.map fun pat => nsimulate msgP idOf echoRest pat fuel 0 n0 r0 none
   let outs := rs.foldl (fun acc (r, _, _) => addSet acc (match r with | some r => resName r | none => "run")) []
   let bound := ws.length + 2
   let timeok := (rs.take 3).all fun (r, tl, t) =>
@@ -226,9 +238,11 @@ def handleC06 : List String → String
     match lookupRe6 pat, parseNats ks, fromHex nb, mid.toNat?, writes.mapM parseWrite with
     | some re, some ks, some nb, some mid, some ws =>
       let msgP : Bytes → Bool := fun b => Rx.isMatch re b
+      let echoRest : Bytes → Option Bytes := fun b =>
+        if isInfix [60, 47, 114, 112, 99, 62] b then (Rx.split2 re b).map (·.2) else none   -- "</rpc>"
       let chunks := ws.foldl (fun acc w => acc + w.2.length + 1) 0
       let fuel := 4 * chunks + 24
-      let rs := ks.map fun k => ncCase msgP midOf nb mid ws kind k fuel
+      let rs := ks.map fun k => ncCase msgP midOf echoRest nb mid ws kind k fuel
       ";".intercalate rs
     | _, _, _, _, _ => "bad-op"
   | ["rx", name, h] =>
